@@ -156,8 +156,8 @@ func (r *raffle) getRunningJobs() map[string]*runState {
 	r.runningMu.Lock()
 	defer verifhook.Release(r, "raffle.mu", r)
 	defer r.runningMu.Unlock()
-	verifhook.Access(r, "raffle.running", false)
 	running := make(map[string]*runState, len(r.runningJobs))
+	verifhook.Access(r, "raffle.running", false) // the iteration below is the read
 	for k, v := range r.runningJobs {
 		running[k] = v
 	}
